@@ -247,7 +247,7 @@ func vh_C07_reqserver_mutated() {
 
 func vN7w() int {
 	if vThorough() {
-		return 22
+		return 20 // (22 did not finish within 40 minutes)
 	}
 	return 18
 }
